@@ -164,4 +164,7 @@ MUTANTS = [
     # ---- vanished anchor
     M("vanish-unpack-contents", DIRF,
       "    def _unpack_contents(self, data):", "    def _unpack_contentsX(self, data):", "ANALYSIS-ERROR"),
+    # ---- C41.7 (node-cache key, shared with C18.5; added after seeded change C41-B)
+    M("cache-keyed-by-readcap-first", "src/allmydata/nodemaker.py",
+      "        bigcap = writecap or readcap\n", "        bigcap = readcap or writecap\n", "C41.7"),
 ]
